@@ -38,6 +38,7 @@ type Pipe struct {
 	rq         chan *mangos.Message
 	closeq     chan struct{}
 	release    chan struct{}
+	failq      chan struct{}
 	Closed     bool
 	CloseCalls int
 	Sent       []Rec
@@ -54,7 +55,7 @@ type Pipe struct {
 }
 
 func NewPipe(t *Tran, name string) *Pipe {
-	return &Pipe{Name: name, T: t, rq: make(chan *mangos.Message, 64), closeq: make(chan struct{}), release: make(chan struct{}, 64),
+	return &Pipe{Name: name, T: t, rq: make(chan *mangos.Message, 64), closeq: make(chan struct{}), release: make(chan struct{}, 64), failq: make(chan struct{}, 64),
 		Opts: map[string]interface{}{mangos.OptionLocalAddr: "vt-local:" + name, mangos.OptionRemoteAddr: "vt-remote:" + name}}
 }
 
@@ -89,6 +90,8 @@ func (p *Pipe) Send(m *mangos.Message) error {
 	case SendBlock:
 		select {
 		case <-p.release:
+		case <-p.failq:
+			return p.goneErr() // the stalled write fails; the connection is not otherwise affected
 		case <-p.closeq:
 			return p.goneErr()
 		}
@@ -164,6 +167,9 @@ func (p *Pipe) Drop() {
 		}
 	}
 }
+
+// FailBlocked makes one blocked Send (SendMode == SendBlock) fail, the connection staying open otherwise.
+func (p *Pipe) FailBlocked() { p.failq <- struct{}{} }
 
 // Release lets one blocked Send (SendMode == SendBlock) complete.
 func (p *Pipe) Release() { p.release <- struct{}{} }
